@@ -360,8 +360,58 @@ def sort_match_arms(s):
     return "".join(out)
 
 
+_UNWRAPS = (("Option::expect(", "@v1::Some.0"), ("Option::unwrap(", "@v1::Some.0"), ("Result::expect(", "@v1::Ok.0"), ("Result::unwrap(", "@v1::Ok.0"))
+_TESTS = (("Option::is_some(", "let v1::Some($)=", False), ("Option::is_none(", "let v1::Some($)=", True),
+          ("Result::is_ok(", "let v1::Ok($)=", False), ("Result::is_err(", "let v1::Err($)=", False))
+
+
+def canon_expected(s):
+    """string-level counterpart of the normaliser's Option / Result forms, so that expectations may be written either way:
+    X.unwrap() / X.expect(..) is the payload `X@v1::Some.0`; X.is_some() is `let v1::Some($)=X`; X.is_none() its negation;
+    `if(Not(c)){a}else{b}` is `if(c){b}else{a}`"""
+    changed = True
+    while changed:
+        changed = False
+        for head, suffix in _UNWRAPS:
+            i = s.find(head)
+            if i >= 0:
+                c = _scan_close(s, i + len(head) - 1, "(", ")")
+                if c > 0:
+                    s = s[:i] + s[i + len(head):c] + suffix + s[c + 1:]
+                    changed = True
+        for head, repl, neg in _TESTS:
+            i = s.find(head)
+            if i >= 0:
+                c = _scan_close(s, i + len(head) - 1, "(", ")")
+                if c > 0:
+                    inner = repl + s[i + len(head):c]
+                    s = s[:i] + (("Not(" + inner + ")") if neg else inner) + s[c + 1:]
+                    changed = True
+        i = s.find("Not(Not(")
+        if i >= 0:
+            c = _scan_close(s, i + 3, "(", ")")
+            if c > 0 and s[c - 1] == ")":
+                s = s[:i] + s[i + 8:c - 1] + s[c + 1:]
+                changed = True
+        i = s.find("if(Not(")
+        while i >= 0:
+            c0 = _scan_close(s, i + 2, "(", ")")
+            c1 = _scan_close(s, i + 6, "(", ")")
+            if c0 > 0 and c1 == c0 - 1 and s[c0 + 1:c0 + 2] == "{":
+                t1 = _scan_close(s, c0 + 1, "{", "}")
+                if t1 > 0 and s[t1 + 1:t1 + 6] == "else{":
+                    e1 = _scan_close(s, t1 + 5, "{", "}")
+                    if e1 > 0:
+                        s = s[:i] + "if(" + s[i + 7:c1] + "){" + s[t1 + 6:e1] + "}else{" + s[c0 + 2:t1] + "}" + s[e1 + 1:]
+                        changed = True
+                        break
+            i = s.find("if(Not(", i + 1)
+    return s
+
+
 def term_matches(got, expected):
     """exact comparison of a rendered term with an expected string; ⟪*⟫ in `expected` matches anything"""
+    expected = canon_expected(expected)
     if "match(" in expected:
         expected = sort_match_arms(expected)
     if ANY not in expected:
